@@ -111,7 +111,7 @@ class CuckooSuite(Suite):
         return seq
 
     def obs(self, kind, obj, ret):
-        d = {"ret": ret, "count": str(obj.elements_added), "cap": str(obj.capacity), "geom": f"{obj.bucket_size},{obj.max_swaps}"}
+        d = {"ret": ret, "count": str(obj.elements_added), "cap": str(obj.capacity), "geom": f"{obj.bucket_size},{obj.max_swaps}", "fpbits": str(obj.fingerprint_size_bits)}
         if kind == "cc":
             d["table"] = "/".join(".".join(f"{b.finger}x{b.count}" for b in bkt) for bkt in obj.buckets)
             d["unique"] = str(obj.unique_elements)
@@ -151,7 +151,6 @@ class CuckooSuite(Suite):
                 if res[0] == "ok":
                     objs[h] = (kind, res[1], size, hname)
                     d = self.obs(kind, res[1], "ok")
-                    d["fpbits"] = str(res[1].fingerprint_size_bits)
                     out.append((line, d))
                 else:
                     out.append((line, {"ret": res[1]}))
